@@ -653,8 +653,13 @@ func (self *Value) findMapEntry(from int, pos int) int {
 			return -1 // not a run of length-delimited records
 		}
 		length, n2 := protowire.ConsumeVarint(buf[at+n1:])
-		if n2 < 0 || length > uint64(len(buf)-at-n1-n2) {
+		if n2 < 0 {
 			return -1
+		}
+		if length > uint64(len(buf)-at-n1-n2) {
+			// a length that reaches past the buffer: the record is the last one and its prefix is the
+			// stale (pre-edit) one of an entry whose value has just shrunk - the entry looked for
+			return at
 		}
 		end := at + n1 + n2 + int(length)
 		if pos < end {
